@@ -146,7 +146,9 @@ def write(root: Path, files: Dict[str, Any]) -> None:
     for rel, data in sorted(files.items()):
         p = root / rel
         p.parent.mkdir(parents=True, exist_ok=True)
-        if isinstance(data, dict):
+        if isinstance(data, dict) and "hex" in data:
+            p.write_bytes(bytes.fromhex(data["hex"]))   # a file that is not text (shared generator with C04)
+        elif isinstance(data, dict):
             os.symlink(data["symlink"], p)
         elif isinstance(data, bytes):
             p.write_bytes(data)
